@@ -266,6 +266,19 @@ pub fn run(tier: Tier, seed: u64) -> i32 {
             l.pop();
             labels.push(("truncated".into(), l));
             labels.push(("empty".into(), Vec::new()));
+            // long labels: every byte and the length must count, also past
+            // 32 / 64 / 255 bytes (the matched long label must still verify:
+            // see `long_base` below)
+            for (name, base_len) in [("long-80", 80usize), ("long-64", 64), ("long-300", 300)] {
+                let base: Vec<u8> = (0..base_len).map(|i| b'a' + (i % 23) as u8).collect();
+                let mut last = base.clone();
+                *last.last_mut().unwrap() ^= 1;
+                let mut longer = base.clone();
+                longer.push(b'z');
+                labels.push((format!("{name}:base"), base));
+                labels.push((format!("{name}:last-byte"), last));
+                labels.push((format!("{name}:one-byte-longer"), longer));
+            }
             let mut l = s.label.clone();
             l.extend_from_slice(&s.label);
             labels.push(("doubled".into(), l));
@@ -280,6 +293,48 @@ pub fn run(tier: Tier, seed: u64) -> i32 {
                     expect_reject(&ev, "label-v2", common::verify(&c2.verifier, &proof2, &s.pi, PlonkVersion::V2), json!({"spec": si, "label": name}), true);
                 }
                 Err(f) => ev.violation("C04:compile-failed-for-label", json!({"label": name, "error": f.text()})),
+            }
+        }
+        // ---- long labels: proof made under the long label itself -------------
+        for base_len in [33usize, 64, 65, 80, 255, 256, 300] {
+            if si % 3 != 0 {
+                break;
+            }
+            let base: Vec<u8> = (0..base_len).map(|i| b'a' + ((i + si as usize) % 23) as u8).collect();
+            let Ok(cb) = common::compile(&pp, &base, &s.prog) else {
+                ev.violation("C04:compile-failed-for-label", json!({"label_len": base_len}));
+                continue;
+            };
+            let mut prng = case_rng(seed, "C04.longlabel", si as u64 * 1000 + base_len as u64);
+            let Ok((lproof, lpi)) = common::prove(&cb.prover, &s.prog, &s.inputs, &[], &mut prng, PlonkVersion::V3).result else {
+                ev.violation("C04:prove-failed-under-long-label", json!({"label_len": base_len}));
+                continue;
+            };
+            ev.case(&json!({"kind": "matched", "spec": si, "label_len": base_len}), true);
+            if let Err(f) = common::verify(&cb.verifier, &lproof, &lpi, PlonkVersion::V3) {
+                ev.violation("C04:matched-combination-rejected:long-label", json!({"label_len": base_len, "error": f.text()}));
+            }
+            let mut variants: Vec<(&str, Vec<u8>)> = Vec::new();
+            let mut v = base.clone();
+            *v.last_mut().unwrap() ^= 1;
+            variants.push(("last-byte", v));
+            let mut v = base.clone();
+            v.push(b'z');
+            variants.push(("one-byte-longer", v));
+            let mut v = base.clone();
+            v.pop();
+            variants.push(("one-byte-shorter", v));
+            let mut v = base.clone();
+            v[base_len / 2] ^= 0x20;
+            variants.push(("middle-byte", v));
+            for (name, l) in variants {
+                match common::compile(&pp, &l, &s.prog) {
+                    Ok(c2) => {
+                        ev.bucket("long_label_mismatches");
+                        expect_reject(&ev, "label", common::verify(&c2.verifier, &lproof, &lpi, PlonkVersion::V3), json!({"spec": si, "label": format!("long-{base_len}:{name}")}), true);
+                    }
+                    Err(f) => ev.violation("C04:compile-failed-for-label", json!({"label": name, "error": f.text()})),
+                }
             }
         }
         // ---- near-miss circuits ----------------------------------------------
@@ -316,5 +371,6 @@ pub fn run(tier: Tier, seed: u64) -> i32 {
     ev.floor("V1 proofs accepted by V1 verification", ev.bucket_get("matched-accepted-v1"), 3);
     ev.floor("near-miss kinds", ev.set_len("near_miss_kinds") as u64, 5);
     ev.floor("label mismatches", ev.bucket_get("kind.label"), 3 * n_spec);
+    ev.floor("mismatches among labels of 33..300 bytes (proof made under the long label)", ev.bucket_get("long_label_mismatches"), 20);
     ev.finish()
 }
